@@ -61,7 +61,7 @@ def st_case(draw, tier):
         reqs = draw(
             st.lists(
                 st.tuples(
-                    st.integers(0, nengines - 1), st.sampled_from(["name", "name", "name", "leaf", "mat", "reseed", "idleaf", "emptyleaf"]), st.sampled_from(PREFIXES)
+                    st.integers(0, nengines - 1), st.sampled_from(["name", "name", "name", "leaf", "mat", "reseed", "idleaf", "emptyleaf", "clone", "deepclone"]), st.sampled_from(PREFIXES)
                 ),
                 min_size=1,
                 max_size=4,
@@ -225,6 +225,13 @@ def request(engine, kind, what, prefix):
         return None
     if what == "name":
         return engine.get_relation_name(prefix)
+    if what in ("clone", "deepclone"):
+        # an engine duplicated with the copy module is a different engine (it starts from the original's counter value):
+        # the names it hands out must differ from the original's
+        import copy
+
+        twin = copy.copy(engine) if what == "clone" else copy.deepcopy(engine)
+        return [engine.get_relation_name(prefix), twin.get_relation_name(prefix), engine.get_relation_name(prefix), twin.get_relation_name(prefix)]
     if what == "idleaf":
         # an unnamed leaf with no columns and exactly one row (a join identity) is still a new leaf that needs a name
         if kind.startswith("it"):
@@ -311,7 +318,7 @@ def run_case(case, stats):
                 if name is None:
                     continue
                 with lock:
-                    names.append((tid, prefix, name))
+                    names.extend((tid, prefix, n) for n in (name if isinstance(name, list) else [name]))
 
         return fn
 
@@ -333,7 +340,7 @@ def run_case(case, stats):
                         if name is None:
                             continue
                         with lock:
-                            names1.append((tid, prefix, name))
+                            names1.extend((tid, prefix, n) for n in (name if isinstance(name, list) else [name]))
             except BaseException as e:  # noqa
                 errors.append(e)
 
